@@ -27,6 +27,13 @@ PLANNED = {
 }
 
 CLAIMS = {
+ 'C17': {
+  'engine': 'groundsim',
+  'technique': 'deterministic simulation with fault injection: seeded histories of runs (three real entry paths), fact-version switches, tampering and crash/interrupt/disk-full/lock faults against one persistent SQLite file; per-statement table reads/writes observed through the SQLite authorizer; oracle = reference evaluator plus ordering and atomicity invariants',
+  'text': 'Seeded search over programs with grounded intermediates x histories of runs x fault positions (every abort position enumerated for a subset of histories); a clean batch is evidence over the sampled histories, not a proof. Exploration fits: the property quantifies over all programs and all run sequences.',
+  'note': 'Trusted: lsim/ref.py, SQLite (incl. its statement rollback), the statement-boundary crash model (no torn pages: Python sqlite3 exposes no VFS hook). After an aborted run only atomicity is demanded; fault-free twins of every history run with no relaxation.',
+  'design_ref': 'DESIGN.md section 5 (C17)',
+ },
  'C20': {
   'engine': 'aggsim',
   'technique': 'deterministic simulation of arrival order: the real aggregate UDF objects are stepped by the simulator in enumerated/seeded permutations with interleaved groups; end to end, the simulator chooses the physical row order, index and UNION ALL order seen by SQLite; oracle = the documented definition of each built-in',
